@@ -97,7 +97,11 @@ def make_image_obj(case):
     from PIL import Image
     from term_image.image import Size
 
-    stubs.set_identity(case["ident"])
+    # "forced": support is forced (forced_support = True) BEFORE the library has ever looked at
+    # the terminal; the constructor must still detect the terminal, so that a style that is
+    # actually supported keeps the terminal-specific behaviour
+    forced = bool(case.get("forced")) and case["style"] != "block"
+    stubs.set_identity(case["ident"], probe=not forced)
     size = case["size"]
     term = (80, 30) if size[0] == "manual" else (size[2], size[3])
     stubs.set_term(size=term, cell=case.get("cell"), fg_bg=case.get("fg_bg", (None, None)))
@@ -107,12 +111,18 @@ def make_image_obj(case):
     kw = {}
     if size[0] == "manual":
         kw = dict(width=size[1], height=size[2])
-    if kind == "pil":
-        image = cls(src, **kw)
-    elif kind == "pilfile":
-        image = cls(Image.open(src), **kw)
-    else:
-        image = cls.from_file(src, **kw)
+    if forced:
+        cls.forced_support = True
+    try:
+        if kind == "pil":
+            image = cls(src, **kw)
+        elif kind == "pilfile":
+            image = cls(Image.open(src), **kw)
+        else:
+            image = cls.from_file(src, **kw)
+    finally:
+        if forced:
+            cls.forced_support = False
     if size[0] == "auto":
         image.size = getattr(Size, size[1])
     if kind.startswith("anim"):
